@@ -297,20 +297,34 @@ async def _run_rx(case, res):
             futs[(i, j)] = loop.create_future()
     root = param.rx(-1)
     vals = case.get("root_vals") or list(range(len(kinds)))
-    cur = {"i": -1}            # index of the most recent root update: the evaluation it triggers awaits that update's futures
+
+    # judged by value: the root holds numbers that compare equal when the value returns (A, B, A -> 1, 2, 1.0) but tell the
+    # evaluation which update it belongs to
+    rootvals, lookup, seen_cls = [], {}, {}
+    for i, k in enumerate(vals):
+        if "root_vals" in case:
+            occ = seen_cls.get(k, 0)
+            seen_cls[k] = occ + 1
+            rv = float(k + 1) if occ % 2 else int(k + 1)
+        else:
+            rv = i
+        rootvals.append(rv)
+        lookup[(type(rv), rv)] = i
+
+    def idx_of(v):
+        return lookup.get((type(v), v), -1)
 
     if kinds[0] == "coro":
         async def pipefn(v):
-            if v < 0:
+            if idx_of(v) < 0:
                 return "init"
-            i = cur["i"]
-            return await futs[(i, 0)]
+            return await futs[(idx_of(v), 0)]
     else:
         async def pipefn(v):
-            if v < 0:
+            i = idx_of(v)
+            if i < 0:
                 yield "init"
                 return
-            i = cur["i"]
             for j in range(NFUT[kinds[i]]):
                 yield await futs[(i, j)]
 
@@ -323,8 +337,7 @@ async def _run_rx(case, res):
         pass
     for step in case["steps"]:
         if step[0] == "assign":
-            cur["i"] = step[1]
-            root.rx.value = vals[step[1]]
+            root.rx.value = rootvals[step[1]]
             try:
                 expr.rx.value           # reading is what schedules the coroutine
             except Exception:  # noqa: BLE001
